@@ -11,3 +11,4 @@ import TransportVerif.Props.C03
 import TransportVerif.Props.C09
 import TransportVerif.Props.C13
 import TransportVerif.Props.C15
+import TransportVerif.Props.C08
